@@ -27,7 +27,17 @@ Section Meta.
   Hypothesis Phi_fail : forall A e, base_error e -> Phi (@fail sstate A e).
   Hypothesis Phi_panic : forall A p, Phi (@panic sstate A p).
   Hypothesis Phi_oof : forall A, Phi (@out_of_fuel sstate A).
-  Hypothesis Phi_ctx : forall A c (m : M sstate A), Phi m -> Phi (ctx_wrap c m).
+  (* contexts the interpreter may wrap errors in (instances that do not care take `fun _ => True`) *)
+  Variable good_ctx : context -> Prop.
+  Hypothesis Phi_ctx : forall A c (m : M sstate A), good_ctx c -> Phi m -> Phi (ctx_wrap c m).
+  Definition good_le (le : lenv) : Prop :=
+    good_ctx CtxOther /\ forall st, good_ctx (CtxStmts [ctx_update (le_ctx le) st]).
+  Lemma ctx_update_twice c st st' : ctx_update (ctx_update c st) st' = ctx_update c st'.
+  Proof. reflexivity. Qed.
+  Lemma good_le_ctx le st : good_le le -> good_le (le_with_ctx le (ctx_update (le_ctx le) st)).
+  Proof. intros [H1 H2]. split; [exact H1|]. intros st'. cbn [le_with_ctx le_ctx]. rewrite ctx_update_twice. apply H2. Qed.
+  Lemma good_le_caps le caps : good_le le -> good_le (le_with_caps le caps).
+  Proof. intros H. exact H. Qed.
   Hypothesis Phi_get : Phi (@get_state sstate).
   Hypothesis Phi_set_locals : forall l, Phi (set_locals l).
   Hypothesis Phi_set_scoped : forall sc, Phi (set_scoped sc).
@@ -66,7 +76,6 @@ Section Meta.
   Ltac phi_step :=
     first [ phi_prim
           | apply Phi_bind; [|intros ?]
-          | apply Phi_ctx
           | apply Phi_mapM; intros ?
           | apply Phi_iterM; intros ?
           | match goal with |- Phi (match ?x with _ => _ end) => destruct x end
@@ -143,14 +152,14 @@ Section Meta.
     apply Phi_bind; [apply Hr|intros _]. apply Phi_pop_frame.
   Qed.
 
-  Lemma Phi_exec_stmt : forall fuel le s, Phi (exec_stmt' fuel le s).
+  Lemma Phi_exec_stmt : forall fuel le s, good_le le -> Phi (exec_stmt' fuel le s).
   Proof.
-    induction fuel as [|fuel IH]; intros le s; [apply Phi_oof|].
-    assert (Hblock : forall le' (wrap : M sstate unit -> M sstate unit) body,
+    induction fuel as [|fuel IH]; intros le s Hle; [apply Phi_oof|].
+    assert (Hblock : forall le' (wrap : M sstate unit -> M sstate unit) body, good_le le' ->
                (forall m, Phi m -> Phi (wrap m)) ->
                Phi (iterM (fun st => let c := ctx_update (le_ctx le') st in
                                      ctx_wrap (CtxStmts [c]) (wrap (exec_stmt' fuel (le_with_ctx le' c) st))) body)).
-    { intros le' wrap body Hw. apply Phi_iterM. intros st. cbv zeta. apply Phi_ctx, Hw, IH. }
+    { intros le' wrap body Hg Hw. apply Phi_iterM. intros st. cbv zeta. apply Phi_ctx; [apply Hg|]. apply Hw, IH, good_le_ctx, Hg. }
     destruct s; cbn [exec_stmt]; (apply Phi_bind; [apply Phi_poll|intros _]).
     - phi2; first [apply Phi_eval | apply Phi_var_add].
     - phi2; first [apply Phi_eval | apply Phi_var_add].
@@ -162,7 +171,8 @@ Section Meta.
     - (* scan *)
       apply Phi_bind; [apply Phi_eval|intros sv]. apply Phi_bind; [apply Phi_lift, base_as_str|intros subject].
       destruct (arm_table regexes arms) as [rs|]; [|apply Phi_panic].
-      apply Phi_scan_loop. intros caps body. apply (Hblock (le_with_caps le caps) (ctx_wrap CtxOther) body). intros m Hm. apply Phi_ctx, Hm.
+      apply Phi_scan_loop. intros caps body. apply (Hblock (le_with_caps le caps) (ctx_wrap CtxOther) body); [apply good_le_caps, Hle|].
+      intros m Hm. apply Phi_ctx; [apply Hle|exact Hm].
     - apply Phi_iterM. intros e. destruct e; phi2; apply Phi_eval.
     - (* if *)
       apply Phi_if_loop; [intros c; apply Phi_test_cond|]. intros body. apply (Hblock le (fun m => m) body); auto.
@@ -174,15 +184,22 @@ Section Meta.
       apply Phi_bind; [apply Phi_unscoped_add|intros _]. apply (Hblock le (fun m => m) body); auto.
   Qed.
 
-  Lemma Phi_exec_stanza fuel st m : Phi (exec_stanza t fl cfg glob regexes find call fuel st m).
+  (* one stanza on one match: contexts are built from the stanza's location and the full-match node *)
+  Definition good_stanza (st : stanza) (m : qmatch) : Prop :=
+    good_ctx CtxOther /\
+    forall n rest l, nodes_for_capture m (st_full_stanza_idx st) = n :: rest ->
+                     good_ctx (CtxStmts [{| sc_stmt := l; sc_stanza := st_start st; sc_node := n |}]).
+  Lemma Phi_exec_stanza fuel st m : good_stanza st m -> Phi (exec_stanza t fl cfg glob regexes find call fuel st m).
   Proof.
-    unfold exec_stanza. apply Phi_bind; [apply Phi_clear_frame|intros _]. apply Phi_iterM. intros s.
-    cbv zeta. apply Phi_bind; [apply Phi_full_match_node|intros n]. apply Phi_ctx, Phi_exec_stmt.
+    intros [Ho Hg]. unfold exec_stanza. apply Phi_bind; [apply Phi_clear_frame|intros _]. apply Phi_iterM. intros s.
+    cbv zeta. destruct (nodes_for_capture m (st_full_stanza_idx st)) as [|n rest] eqn:E; [apply Phi_panic|].
+    apply Phi_ctx; [eapply Hg; reflexivity|].
+    apply Phi_exec_stmt. split; [exact Ho|]. intros st'. cbn [le_with_ctx le_ctx ctx_update sc_stanza sc_node]. eapply Hg; reflexivity.
   Qed.
 
-  Theorem Phi_exec_file fuel : forall sts ms, Phi (exec_file t fl cfg glob regexes find call fuel sts ms).
+  Theorem Phi_exec_file fuel : (forall c, good_ctx c) -> forall sts ms, Phi (exec_file t fl cfg glob regexes find call fuel sts ms).
   Proof.
-    induction sts as [|st sts IH]; intros [|m ms]; cbn [exec_file]; try apply Phi_ret.
-    apply Phi_bind; [apply Phi_iterM; intros x; apply Phi_exec_stanza|intros _]. apply IH.
+    intros Hall. induction sts as [|st sts IH]; intros [|m ms]; cbn [exec_file]; try apply Phi_ret.
+    apply Phi_bind; [apply Phi_iterM; intros x; apply Phi_exec_stanza; split; intros; apply Hall|intros _]. apply IH.
   Qed.
 End Meta.
